@@ -276,6 +276,16 @@ func forType(t reflect.Type, seen map[reflect.Type]bool, ignore bool, schemas ma
 			if s.Properties == nil {
 				s.Properties = make(map[string]*Schema)
 			}
+			// Everything below an embedded struct that was omitted, replaced or named
+			// stays out, further embedded structs (and their overrides) included.
+			// Anonymous fields are followed immediately by the fields below them, so
+			// the first field that is not below skipPath ends it.
+			if skipPath != nil {
+				if len(field.Index) >= len(skipPath) && slices.Equal(field.Index[:len(skipPath)], skipPath) {
+					continue
+				}
+				skipPath = nil
+			}
 			// encoding/json flattens an embedded struct only if its json tag does not
 			// name it: with a name it is an ordinary field, and with "-" it is omitted
 			// along with the fields it would have promoted.
@@ -284,9 +294,7 @@ func forType(t reflect.Type, seen map[reflect.Type]bool, ignore bool, schemas ma
 				tag := field.Tag.Get("json")
 				tagName, _, _ := strings.Cut(tag, ",")
 				if tag == "-" {
-					if skipPath == nil || !slices.Equal(field.Index[:min(len(skipPath), len(field.Index))], skipPath) {
-						skipPath = field.Index
-					}
+					skipPath = field.Index
 					continue
 				}
 				// (encoding/json looks at an embedded struct even when its type is unexported.)
@@ -335,30 +343,6 @@ func forType(t reflect.Type, seen map[reflect.Type]bool, ignore bool, schemas ma
 					}
 				}
 				continue
-			}
-
-			// Check to see if this field has been promoted from a replaced anonymous
-			// type.
-			if skipPath != nil {
-				skip := false
-				if len(field.Index) >= len(skipPath) {
-					skip = true
-					for i, index := range skipPath {
-						if field.Index[i] != index {
-							// If we're no longer in a subfield.
-							skip = false
-							break
-						}
-					}
-				}
-				if skip {
-					continue
-				} else {
-					// Anonymous fields are followed immediately by their promoted fields.
-					// Once we encounter a field that *isn't* promoted, we can stop
-					// checking.
-					skipPath = nil
-				}
 			}
 
 			if namedEmbedded {
